@@ -14,14 +14,19 @@ size_t gh_li;
 #ifndef NEL
 #define NEL 3
 #endif
+#ifndef WHICH
+#define WHICH 1
+#define FMTSEL 1
+#define COUNT 2
+#endif
 #define OUTMAX 64
 static unsigned char out[OUTMAX]; static size_t outn; static int overflow;
 static size_t cap_write(scpi_t *c, const char *d, size_t n) { size_t i; (void)c; for (i = 0; i < n; i++) { if (outn < OUTMAX) out[outn++] = (unsigned char) d[i]; else overflow = 1; } return n; }
 static scpi_t ctx; static scpi_interface_t itf; static scpi_error_t queue[2];
 void h_array_binary(void) {
-    size_t count = nondet_size(); __CPROVER_assume(count <= NEL);
-    int which = nondet_int(); __CPROVER_assume(which >= 0 && which <= 3);
-    scpi_array_format_t fmt = nondet_bool() ? SCPI_FORMAT_NORMAL : SCPI_FORMAT_SWAPPED;
+    /* element type, format and count are fixed per job (-DWHICH -DFMTSEL -DCOUNT), element values symbolic */
+    size_t count = COUNT; int which = WHICH;
+    scpi_array_format_t fmt = FMTSEL ? SCPI_FORMAT_NORMAL : SCPI_FORMAT_SWAPPED;
     uint64_t v[NEL + 1]; size_t i; for (i = 0; i <= NEL; i++) v[i] = nondet_u64();
     uint8_t a8[NEL + 1]; uint16_t a16[NEL + 1]; uint32_t a32[NEL + 1]; uint64_t a64[NEL + 1];
     for (i = 0; i <= NEL; i++) { a8[i] = (uint8_t) v[i]; a16[i] = (uint16_t) v[i]; a32[i] = (uint32_t) v[i]; a64[i] = v[i]; }
